@@ -424,7 +424,9 @@ class Triage(object):
                 self.inconclusive.append({'what': 'leak allocated by the fuzz target itself (harness defect, please report): ' + sig,
                                           'target': target, 'file': os.path.basename(files[0][0])})
                 continue
-            to_judge.append((target, sig, files[0][0], rec))
+            if 'violation' not in rec and 'flaky' not in rec and not rec.get('judging'):
+                rec['judging'] = True
+                to_judge.append((target, sig, files[0][0], rec))
         # unknown signatures are judged in parallel (each: one minimization of at most 20 s and four replays)
         list(self.pool.map(lambda a: self.judge(*a), to_judge[:24]))
         for target, sig, path, rec in to_judge[24:]:
